@@ -1025,3 +1025,339 @@ Proof. reflexivity. Qed.
 Lemma block_keeps_everything evs p :
   run (evs ++ [BlockPeer p]) = run evs.
 Proof. rewrite run_snoc. reflexivity. Qed.
+
+(* --- isConnected and the outbound path (Service.Connect) ----------------------------------------- *)
+Lemma connect_anchors :
+  Generated.c14_connect_checks_registered = true /\ Generated.c14_connect_short_circuit = true /\
+  Generated.c14_connect_not_found_args = [[bos "addrInfo.ID"]].
+Proof. repeat split; reflexivity. Qed.
+Lemma remove_peer_unused : remove_peer_callers = repeat false 14.
+Proof. reflexivity. Qed.
+
+Lemma is_connected_iff_registered evs p : wf evs ->
+  is_connected (run evs) p = get p (overlays (run evs)).
+Proof.
+  intros Hwf. destruct (inv_run evs Hwf) as [HA _]. unfold is_connected.
+  destruct (get p (overlays (run evs))) as [pe|] eqn:E; [|reflexivity].
+  assert (H : get p (conns (run evs)) <> None) by (intros H; apply (a_co _ _ HA) in H; congruence).
+  apply has_get in H. rewrite H. reflexivity.
+Qed.
+
+(* the registry effect of Connect is that of the enrolment, or nothing when the peer is connected *)
+Lemma connect_state r c pe closed :
+  fst (connect r c pe closed) = r \/ fst (connect r c pe closed) = step r (Enrol c pe closed).
+Proof.
+  unfold connect, connect_with. destruct (is_connected r (remote c)); [left; reflexivity|right].
+  unfold step, step_with. destruct (add_peer r c pe closed) as [r' ex]. cbn [fst].
+  destruct (_ && _ && _); reflexivity.
+Qed.
+
+(* Connect reports a peer only if that peer is registered when Connect returns *)
+Lemma connect_success_registered r c pe closed pe' :
+  snd (connect r c pe closed) = Some pe' -> registered (fst (connect r c pe closed)) (remote c) = true.
+Proof.
+  unfold connect, connect_with, registered. replace Generated.c14_connect_checks_registered with true by reflexivity.
+  unfold is_connected. destruct (get (remote c) (overlays r)) as [pe0|] eqn:Eo.
+  - destruct (has (remote c) (conns r)) eqn:Ec; cbn [fst snd].
+    + intros _. apply has_get. congruence.
+    + destruct (add_peer r c pe closed) as [r' ex] eqn:Ea. cbn [andb].
+      destruct (ex && negb (has (remote c) (overlays r'))) eqn:Eb; cbn [fst snd]; [discriminate|].
+      intros _. apply andb_false_iff in Eb. destruct Eb as [Eb|Eb]; [|apply negb_false_iff, Eb].
+      subst ex. unfold add_peer in Ea. destruct closed; [congruence|].
+      unfold add_peer_open in Ea. destruct (has (p_addr pe) (underlays r)); [congruence|].
+      inversion Ea. cbn [overlays]. apply has_get. msimpl. discriminate.
+  - destruct (add_peer r c pe closed) as [r' ex] eqn:Ea. cbn [andb].
+    destruct (ex && negb (has (remote c) (overlays r'))) eqn:Eb; cbn [fst snd]; [discriminate|].
+    intros _. apply andb_false_iff in Eb. destruct Eb as [Eb|Eb]; [|apply negb_false_iff, Eb].
+    subst ex. unfold add_peer in Ea. destruct closed; [congruence|].
+    unfold add_peer_open in Ea. destruct (has (p_addr pe) (underlays r)); [congruence|].
+    inversion Ea. cbn [overlays]. apply has_get. msimpl. discriminate.
+Qed.
+
+(* ... and conversely a refusal leaves the peer unregistered (nothing is withheld) *)
+Lemma connect_failure_unregistered r c pe closed :
+  snd (connect r c pe closed) = None -> registered (fst (connect r c pe closed)) (remote c) = false.
+Proof.
+  unfold connect, connect_with, registered. destruct (is_connected r (remote c)); cbn [fst snd]; [discriminate|].
+  destruct (add_peer r c pe closed) as [r' ex].
+  destruct (Generated.c14_connect_checks_registered && ex && negb (has (remote c) (overlays r'))) eqn:Eb; cbn [fst snd]; [|discriminate].
+  intros _. apply andb_true_iff in Eb. destruct Eb as [_ Eb]. apply negb_true_iff, Eb.
+Qed.
+
+Lemma connect_refuted_v2 :
+  exists r c pe closed pe', snd (connect_v2 r c pe closed) = Some pe' /\
+    registered (fst (connect_v2 r c pe closed)) (remote c) = false.
+Proof. exists init, (1, 0), pe1, true, pe1. split; reflexivity. Qed.
+
+Example ex_connect :
+  snd (connect init (1, 0) pe1 false) = Some pe1 /\ snd (connect init (1, 0) pe1 true) = None /\
+  snd (connect (run [Enrol (1, 0) pe1 false]) (1, 1) {| p_addr := 7; p_role := 2%Z |} true) = Some pe1.
+Proof. repeat split; reflexivity. Qed.
+
+(* --- which registration a handler's identity comes from -------------------------------------------- *)
+Lemma sw_add_peer r c pe cl : sw (fst (add_peer r c pe cl)) = sw r /\ started (fst (add_peer r c pe cl)) = started r.
+Proof. unfold add_peer, add_peer_open. destruct cl; [split; reflexivity|]. destruct (has _ _); split; reflexivity. Qed.
+Lemma sw_disconnected r c : sw (disconnected r c) = sw r /\ started (disconnected r c) = started r.
+Proof.
+  unfold disconnected. destruct (get (remote c) (conns r)); [|split; reflexivity].
+  destruct (conn_del c l); [|split; reflexivity]. destruct (get (remote c) (overlays r)); split; reflexivity.
+Qed.
+
+Lemma sw_step r e s st' p pe :
+  get s (sw (step r e)) = Some st' -> sw_ident st' = Some (p, pe) ->
+  (exists st, get s (sw r) = Some st /\ sw_ident st = Some (p, pe)) \/
+  (e = SLookup s p /\ get s (sw r) = None /\ get p (overlays r) = Some pe).
+Proof.
+  intros H Hid. destruct e as [c pe0 cl|c|s0 p0|s0|s0|s0|p0 s0|bp]; unfold step, step_with in H.
+  - rewrite (proj1 (sw_add_peer r c pe0 cl)) in H. left. eauto.
+  - rewrite (proj1 (sw_disconnected r c)) in H. left. eauto.
+  - destruct (get s0 (sw r)) as [x|] eqn:E0; [left; eauto|].
+    unfold get_peer in H. destruct (get p0 (overlays r)) as [pe0|] eqn:Eo; cbn [sw with_sw] in H;
+      (destruct (N.eq_dec s s0) as [->|Hne]; [rewrite get_put_same in H|rewrite get_put_other in H by exact Hne; left; eauto]).
+    + injection H as <-. cbn in Hid. injection Hid as <- <-. right. auto.
+    + injection H as <-. discriminate.
+  - destruct (get s0 (sw r)) as [[q pe0|q pe0 f|q pe0| |]|] eqn:E0; try (left; eauto; fail).
+    pose proof (frame_add_stream (with_ctxs r (put s0 false (ctxs r))) q s0) as _.
+    unfold add_stream in H. cbn [streams with_ctxs with_streams] in H.
+    destruct (get q (streams r)) as [ss|]; cbn [orb negb sw with_sw with_streams with_ctxs] in H;
+      (destruct (N.eq_dec s s0) as [->|Hne]; [rewrite get_put_same in H|rewrite get_put_other in H by exact Hne; left; eauto]).
+    + injection H as <-. cbn in Hid. left. exists (SwLooked q pe0). split; [exact E0|exact Hid].
+    + injection H as <-. discriminate.
+  - destruct (get s0 (sw r)) as [[q pe0|q pe0 f|q pe0| |]|] eqn:E0; try (left; eauto; fail).
+    cbn [sw with_sw with_started] in H.
+    destruct (N.eq_dec s s0) as [->|Hne]; [rewrite get_put_same in H|rewrite get_put_other in H by exact Hne; left; eauto].
+    injection H as <-. left. exists (SwTracked q pe0 f). split; [exact E0|exact Hid].
+  - destruct (get s0 (sw r)) as [[q pe0|q pe0 f|q pe0| |]|] eqn:E0; try (left; eauto; fail);
+      cbn [sw with_sw] in H; rewrite (proj1 (rs_fields r q s0)) in H;
+      (destruct (N.eq_dec s s0) as [->|Hne]; [rewrite get_put_same in H; injection H as <-; discriminate
+                                             |rewrite get_put_other in H by exact Hne; left; eauto]).
+  - rewrite (proj1 (rs_fields r p0 s0)) in H. left. eauto.
+  - left. eauto.
+Qed.
+
+Definition looked_at (evs : list event) (s : sid) (p : pid) (pe : peer) : Prop :=
+  exists pre post, evs = pre ++ SLookup s p :: post /\
+    get s (sw (run pre)) = None /\ get p (overlays (run pre)) = Some pe.
+
+Lemma looked_at_snoc evs e s p pe : looked_at evs s p pe -> looked_at (evs ++ [e]) s p pe.
+Proof.
+  intros (pre & post & -> & H1 & H2). exists pre, (post ++ [e]). split; [|split; assumption].
+  rewrite <- app_assoc. reflexivity.
+Qed.
+
+Lemma sw_looked_at evs s st p pe :
+  get s (sw (run evs)) = Some st -> sw_ident st = Some (p, pe) -> looked_at evs s p pe.
+Proof.
+  revert st. induction evs as [|e l IH] using rev_ind; intros st H Hid; [discriminate|].
+  rewrite run_snoc in H. destruct (sw_step _ _ _ _ _ _ H Hid) as [(st0 & H0 & Hid0)|(-> & H0 & Ho)].
+  - apply looked_at_snoc. eapply IH; eassumption.
+  - exists l, []. split; [reflexivity|split; assumption].
+Qed.
+
+(* the state a stream was tracked in *)
+Definition tracked_at (evs : list event) (s : sid) (p : pid) (pe : peer) (f : bool) : Prop :=
+  exists pre post, evs = pre ++ STrack s :: post /\
+    get s (sw (run pre)) = Some (SwLooked p pe) /\ registered (run pre) p = f.
+Lemma tracked_at_snoc evs e s p pe f : tracked_at evs s p pe f -> tracked_at (evs ++ [e]) s p pe f.
+Proof.
+  intros (pre & post & -> & H1 & H2). exists pre, (post ++ [e]). split; [|split; assumption].
+  rewrite <- app_assoc. reflexivity.
+Qed.
+
+Lemma tracked_step r e s p pe f :
+  get s (sw (step r e)) = Some (SwTracked p pe f) ->
+  get s (sw r) = Some (SwTracked p pe f) \/
+  (e = STrack s /\ get s (sw r) = Some (SwLooked p pe) /\ registered r p = f).
+Proof.
+  intros H. destruct e as [c pe0 cl|c|s0 p0|s0|s0|s0|p0 s0|bp]; unfold step, step_with in H.
+  - rewrite (proj1 (sw_add_peer r c pe0 cl)) in H. left. exact H.
+  - rewrite (proj1 (sw_disconnected r c)) in H. left. exact H.
+  - destruct (get s0 (sw r)) as [x|] eqn:E0; [left; exact H|].
+    unfold get_peer in H. destruct (get p0 (overlays r)); cbn [sw with_sw] in H;
+      (destruct (N.eq_dec s s0) as [->|Hne]; [rewrite get_put_same in H; discriminate|rewrite get_put_other in H by exact Hne; left; exact H]).
+  - destruct (get s0 (sw r)) as [[q pe0|q pe0 f0|q pe0| |]|] eqn:E0; try (left; exact H).
+    unfold add_stream in H. cbn [streams with_ctxs with_streams] in H.
+    destruct (get q (streams r)) as [ss|]; cbn [orb negb sw with_sw with_streams with_ctxs overlays] in H;
+      (destruct (N.eq_dec s s0) as [->|Hne]; [rewrite get_put_same in H|rewrite get_put_other in H by exact Hne; left; exact H]).
+    + injection H as <- <- <-. right. split; [reflexivity|]. split; [exact E0|reflexivity].
+    + discriminate.
+  - destruct (get s0 (sw r)) as [[q pe0|q pe0 f0|q pe0| |]|] eqn:E0; try (left; exact H).
+    cbn [sw with_sw with_started] in H.
+    destruct (N.eq_dec s s0) as [->|Hne]; [rewrite get_put_same in H; discriminate|rewrite get_put_other in H by exact Hne; left; exact H].
+  - destruct (get s0 (sw r)) as [[q pe0|q pe0 f0|q pe0| |]|] eqn:E0; try (left; exact H);
+      cbn [sw with_sw] in H; rewrite (proj1 (rs_fields r q s0)) in H;
+      (destruct (N.eq_dec s s0) as [->|Hne]; [rewrite get_put_same in H; discriminate
+                                             |rewrite get_put_other in H by exact Hne; left; exact H]).
+  - rewrite (proj1 (rs_fields r p0 s0)) in H. left. exact H.
+  - left. exact H.
+Qed.
+
+Lemma sw_tracked_at evs s p pe f :
+  get s (sw (run evs)) = Some (SwTracked p pe f) -> tracked_at evs s p pe f.
+Proof.
+  induction evs as [|e l IH] using rev_ind; intros H; [discriminate|].
+  rewrite run_snoc in H. destruct (tracked_step _ _ _ _ _ _ H) as [H0|(-> & H0 & Hf)].
+  - apply tracked_at_snoc, IH, H0.
+  - exists l, []. split; [reflexivity|split; assumption].
+Qed.
+
+Lemma started_step r e x :
+  In x (started (step r e)) ->
+  In x (started r) \/ exists s p pe f, x = (s, p, pe, f) /\ e = SStart s /\ get s (sw r) = Some (SwTracked p pe f).
+Proof.
+  intros H. destruct e as [c pe0 cl|c|s0 p0|s0|s0|s0|p0 s0|bp]; unfold step, step_with in H.
+  - rewrite (proj2 (sw_add_peer r c pe0 cl)) in H. left. exact H.
+  - rewrite (proj2 (sw_disconnected r c)) in H. left. exact H.
+  - left. destruct (get s0 (sw r)); [exact H|]. destruct (get_peer r p0); exact H.
+  - left. destruct (get s0 (sw r)) as [[q pe0|q pe0 f0|q pe0| |]|]; try exact H.
+    unfold add_stream in H. cbn [streams with_ctxs with_streams] in H.
+    destruct (get q (streams r)); exact H.
+  - destruct (get s0 (sw r)) as [[q pe0|q pe0 f0|q pe0| |]|] eqn:E0; try (left; exact H).
+    cbn [started with_sw with_started] in H. apply in_app_iff in H. destruct H as [H|[<-|[]]]; [left; exact H|].
+    right. exists s0, q, pe0, f0. auto.
+  - left. destruct (get s0 (sw r)) as [[q pe0|q pe0 f0|q pe0| |]|]; try exact H;
+      cbn [started with_sw] in H; rewrite (proj2 (rs_fields r q s0)) in H; exact H.
+  - left. rewrite (proj2 (rs_fields r p0 s0)) in H. exact H.
+  - left. exact H.
+Qed.
+
+Lemma started_at evs s p pe f :
+  In (s, p, pe, f) (started (run evs)) -> looked_at evs s p pe /\ tracked_at evs s p pe f.
+Proof.
+  induction evs as [|e l IH] using rev_ind; intros H; [destruct H|].
+  rewrite run_snoc in H. destruct (started_step _ _ _ H) as [H0|(s' & p' & pe' & f' & [= <- <- <- <-] & -> & Hsw)].
+  - destruct (IH H0). split; [apply looked_at_snoc|apply tracked_at_snoc]; assumption.
+  - split.
+    + apply looked_at_snoc. eapply sw_looked_at; [exact Hsw|reflexivity].
+    + apply tracked_at_snoc, sw_tracked_at, Hsw.
+Qed.
+
+(* every handler invocation: the identity handed over is the record under which the peer was
+   registered when the wrapper looked it up (first event of that stream), proven by a handshake
+   before that lookup; and the peer was registered when the stream was tracked, later *)
+Lemma handlers_ordered evs : wf evs ->
+  forall s p pe f, In (s, p, pe, f) (started (run evs)) ->
+    f = true /\
+    (exists pre post, evs = pre ++ SLookup s p :: post /\ get s (sw (run pre)) = None /\
+        get p (overlays (run pre)) = Some pe /\ exists k, In (Enrol (p, k) pe false) pre) /\
+    (exists pre post, evs = pre ++ STrack s :: post /\ get s (sw (run pre)) = Some (SwLooked p pe) /\
+        registered (run pre) p = true).
+Proof.
+  intros Hwf s p pe f Hin. destruct (handlers evs Hwf s p pe f Hin) as [-> _]. split; [reflexivity|].
+  destruct (started_at evs s p pe true Hin) as [(pre & post & E & H1 & H2) (pre2 & post2 & E2 & H3 & H4)]. split.
+  - exists pre, post. split; [exact E|]. split; [exact H1|]. split; [exact H2|].
+    assert (Hwp : wf pre) by (rewrite E in Hwf; apply (wf_prefix _ _ Hwf)).
+    destruct (inv_run pre Hwp) as [HA _]. apply (a_prov _ _ HA), H2.
+  - exists pre2, post2. auto.
+Qed.
+
+(* the stronger reading "the record in force when the stream is tracked" fails: the peer
+   disconnects and registers again with another role between the lookup and addStream *)
+Lemma handlers_current_refuted :
+  exists evs s p pe, wf evs /\ In (s, p, pe, true) (started (run evs)) /\
+    exists pre post pe', evs = pre ++ STrack s :: post /\
+      get p (overlays (run pre)) = Some pe' /\ pe' <> pe /\ registered (run evs) p = true /\
+      ctx_cancelled (run evs) s = false.
+Proof.
+  exists [Enrol (1, 0) {| p_addr := 7; p_role := 0%Z |} false; SLookup 5 1; ConnClosed (1, 0);
+          Enrol (1, 1) {| p_addr := 7; p_role := 1%Z |} false; STrack 5; SStart 5], 5, 1, {| p_addr := 7; p_role := 0%Z |}.
+  split; [apply wfb_wf; reflexivity|]. split; [left; reflexivity|].
+  exists [Enrol (1, 0) {| p_addr := 7; p_role := 0%Z |} false; SLookup 5 1; ConnClosed (1, 0);
+          Enrol (1, 1) {| p_addr := 7; p_role := 1%Z |} false], [SStart 5], {| p_addr := 7; p_role := 1%Z |}.
+  split; [reflexivity|]. split; [reflexivity|]. split; [discriminate|]. split; reflexivity.
+Qed.
+
+From MevVerif Require Import check.Check_C14.
+Open Scope N_scope.
+
+(* --- the checker's clauses on the model's own states ---------------------------------------------- *)
+Lemma In_upto i n : In i (upto n) <-> i < n.
+Proof.
+  unfold upto. rewrite in_map_iff. split.
+  - intros (k & <- & Hk). apply in_seq in Hk. lia.
+  - intros H. exists (N.to_nat i). split; [apply N2Nat.id|]. apply in_seq. lia.
+Qed.
+Lemma nth_upto {A : Type} (f : N -> A) n i d : i < n -> nth (N.to_nat i) (map f (upto n)) d = f i.
+Proof.
+  intros H. unfold upto. rewrite map_map.
+  rewrite (nth_indep _ d (f (N.of_nat 0))) by (rewrite map_length, seq_length; lia).
+  rewrite (map_nth (fun x => f (N.of_nat x))), seq_nth by lia. cbn. rewrite N2Nat.id. reflexivity.
+Qed.
+
+(* the universe of a case covers the history *)
+Definition bounded (np nc na : N) (evs : list event) : Prop :=
+  forall c pe, In (c, pe) (enrolments evs) -> remote c < np /\ snd c < nc /\ p_addr pe < na.
+
+Lemma open_enrolled_enrolled evs c : open_enrolled evs c = true -> exists pe, In (c, pe) (enrolments evs).
+Proof.
+  induction evs as [|e l IH] using rev_ind; [discriminate|].
+  rewrite open_enrolled_snoc, enrolments_app. intros H.
+  assert (Hold : open_enrolled l c = true -> exists pe, In (c, pe) (enrolments l ++ enrolments [e])).
+  { intros H0. destruct (IH H0) as [pe Hpe]. exists pe. apply in_or_app. left. exact Hpe. }
+  destruct e as [c' pe cl|c'|s p|s|s|s|p s|bp]; cbn [open_after] in H; try (apply Hold, H).
+  - destruct (conn_eqb c c' && negb cl) eqn:E; [|apply Hold, H].
+    apply andb_true_iff in E. destruct E as [E _]. apply conn_eqb_eq in E. subst c'.
+    exists pe. apply in_or_app. right. left. reflexivity.
+  - destruct (conn_eqb c c'); [discriminate|apply Hold, H].
+Qed.
+
+Lemma reg_in_model np na ns r p : p < np -> reg_in (snap_of np na ns r) p = registered r p.
+Proof.
+  intros H. unfold reg_in, row, snap_of, registered, has. cbn [sn_over]. rewrite nth_upto by exact H.
+  destruct (get p (overlays r)); reflexivity.
+Qed.
+
+Lemma check_registered_model np nc na ns evs :
+  wf evs -> w3 evs -> bounded np nc na evs ->
+  check_registered np nc evs (snap_of np na ns (run evs)) = None.
+Proof.
+  intros Hwf Hw3 Hb. unfold check_registered.
+  assert (H : forall p, In p (upto np) ->
+            reg_in (snap_of np na ns (run evs)) p = spec_registered nc evs p).
+  { intros p Hp. apply In_upto in Hp. rewrite reg_in_model by exact Hp. unfold spec_registered.
+    destruct (registered (run evs) p) eqn:Er.
+    - apply (registered_iff evs p Hwf) in Er. destruct Er as [k Hk]. symmetry. apply existsb_exists.
+      exists k. split.
+      + apply In_upto. destruct (open_enrolled_enrolled evs (p, k) Hk) as [pe Hpe]. apply (Hb _ _ Hpe).
+      + rewrite truly_open_w3 by exact Hw3. exact Hk.
+    - symmetry. apply not_true_iff_false. intros Hex. apply existsb_exists in Hex.
+      destruct Hex as (k & _ & Hk). rewrite truly_open_w3 in Hk by exact Hw3.
+      assert (registered (run evs) p = true) by (apply (registered_iff evs p Hwf); eauto). congruence. }
+  induction (upto np) as [|p l IH]; [reflexivity|]. cbn [fold_right].
+  rewrite (H p (or_introl eq_refl)). rewrite IH by (intros q Hq; apply H; right; exact Hq).
+  destruct (spec_registered nc evs p); reflexivity.
+Qed.
+
+Lemma zlist_eqb_refl l : zlist_eqb l l = true.
+Proof. induction l as [|x r IH]; [reflexivity|]. cbn. rewrite Z.eqb_refl. exact IH. Qed.
+
+Lemma maps_agree_model np nc na ns evs :
+  wf evs -> bounded np nc na evs -> maps_agree np na (snap_of np na ns (run evs)) = true.
+Proof.
+  intros Hwf Hb. destruct (inv_run evs Hwf) as [HA _]. unfold maps_agree. apply andb_true_iff. split.
+  - apply forallb_forall. intros p Hp. apply In_upto in Hp. unfold row, snap_of. cbn [sn_over sn_under].
+    rewrite nth_upto by exact Hp. destruct (get p (overlays (run evs))) as [pe|] eqn:Eo; [|reflexivity].
+    destruct (a_prov _ _ HA p pe Eo) as [k Hk]. apply enrolments_In in Hk. destruct (Hb _ _ Hk) as (_ & _ & Ha).
+    replace (0 <=? Z.of_N (p_addr pe))%Z with true by (symmetry; apply Z.leb_le; lia). cbn [andb].
+    rewrite N2Z.id, nth_upto by exact Ha. rewrite (a_ou _ _ HA p pe Eo). apply zlist_eqb_refl.
+  - apply forallb_forall. intros a Ha. apply In_upto in Ha. unfold row, snap_of. cbn [sn_over sn_under].
+    rewrite nth_upto by exact Ha. destruct (get a (underlays (run evs))) as [p|] eqn:Eu; [|reflexivity].
+    destruct (a_uo _ _ HA a p Eu) as (pe & Eo & Hadr).
+    destruct (a_prov _ _ HA p pe Eo) as [k Hk]. apply enrolments_In in Hk. destruct (Hb _ _ Hk) as (Hp & _ & _).
+    cbn [remote fst] in Hp.
+    replace (0 <=? Z.of_N p)%Z with true by (symmetry; apply Z.leb_le; lia). cbn [andb].
+    rewrite N2Z.id, nth_upto by exact Hp. rewrite Eo, Hadr. apply Z.eqb_refl.
+Qed.
+
+(* what the checker evaluates at one step, on the model's own observation of that step: the clauses
+   panic, notifications-in-flight, maps-disagree, stale-peer / missing-peer *)
+Lemma checker_accepts_model_partial np nc na ns evs :
+  wf evs -> w3 evs -> bounded np nc na evs ->
+  panicked (run evs) = false /\
+  maps_agree np na (snap_of np na ns (run evs)) = true /\
+  check_registered np nc evs (snap_of np na ns (run evs)) = None.
+Proof.
+  intros Hwf Hw3 Hb. split; [apply no_panic, Hwf|]. split.
+  - eapply maps_agree_model; eassumption.
+  - apply check_registered_model; assumption.
+Qed.
